@@ -1,8 +1,11 @@
-(* C02, failure case — single-stage workflows: in every ordering, every final state a component receives is
-   its rule-given state or shut-down (no component is failed or finished "by accident").  Before the first
-   failed component has been observed by finishedCheck the final states are exactly the rule-given ones;
-   from that moment on every component is staged (nothing is launched any more) and the components that
-   are stopped end shut-down. *)
+(* C02, failure case.
+   General part (any number of stages, no hypothesis on the workflow): in every ordering every final state a
+   component receives is shut-down or the outcome of its own executions under the restart policy (walk0), and
+   the latter only if it was launched.  As long as no failed component has been handled by finishedCheck
+   (the state is "calm") and the workflow is well formed with well-behaved subjects, the final states are
+   exactly the rule-given ones.
+   Single-stage part: from the moment a failure is observed every component is staged (nothing is launched
+   any more), hence every final state is the rule-given one or shut-down. *)
 From Coq Require Import List Bool Arith Lia.
 Import ListNotations.
 Require Import V.Restart.Model V.Restart.Proofs V.Sched.Model V.Sched.Proofs V.Stage.Spec V.Stage.Proofs V.Stage.Progress.
@@ -10,12 +13,13 @@ Require Import V.Restart.Model V.Restart.Proofs V.Sched.Model V.Sched.Proofs V.S
 Section Failure.
 Variable W : list comp.
 Variable outcome : nat -> nat -> reason.
-Hypothesis WF : wf W.
-Hypothesis Single : forall c, stage (cmp W c) = 0.
-Hypothesis Subjects : forall c p, In p (preds (cmp W c)) -> is_subject W c p = true -> spec W outcome p = Finished.
 
 Notation spec := (spec W outcome).
 Notation rule := (rule W).
+
+(* a repeating component's same-stage producers simply finish (the complement is finding F2) *)
+Definition subjects_ok : Prop :=
+  forall c p, In p (preds (cmp W c)) -> is_subject W c p = true -> spec p = Finished.
 
 (* no failed component has been handled by finishedCheck yet *)
 Definition calm (s : state) : Prop := forall c, In c (done s) -> ctl (dy s c) <> Some Failed.
@@ -33,10 +37,12 @@ Proof.
     + right. intros H. apply IH. intros c Hc. apply H. right. exact Hc.
 Qed.
 
+(* calm, in a workflow for which the rule-given states are meaningful *)
+Definition qcalm (s : state) : Prop := wf W /\ subjects_ok /\ calm s.
+
 Record kbase (s : state) : Prop := {
-  b_ctl : forall c f, ctl (dy s c) = Some f -> f = spec c \/ f = Shutdown;
+  b_ctl : forall c f, ctl (dy s c) = Some f -> f = Shutdown \/ (0 < runs (dy s c) /\ f = walk0 W outcome c);
   b_pend : forall c f, pending (dy s c) = Some f -> f = Shutdown;
-  b_rule : forall c, 0 < runs (dy s c) -> rule spec c = false;
   b_walk : forall c, 0 < runs (dy s c) -> finish_called (dy s c) = false ->
            Nat.pred (runs (dy s c)) = restarts (dy s c) + resub (dy s c) /\
            restarts (dy s c) <= max_r (cmp W c) /\ resub (dy s c) <= 5 /\
@@ -46,39 +52,36 @@ Record kbase (s : state) : Prop := {
            r = outcome c (Nat.pred (runs (dy s c)));
   b_shut : forall c, shut (dy s c) = true -> finish_called (dy s c) = true;
   b_fresh : forall c, runs (dy s c) = 0 -> restarts (dy s c) = 0 /\ resub (dy s c) = 0;
-  b_calm : calm s -> (forall c f, ctl (dy s c) = Some f -> f = spec c) /\
-                     (forall c f, pending (dy s c) = Some f -> f = spec c)
+  b_calm : qcalm s -> (forall c f, ctl (dy s c) = Some f -> f = spec c) /\
+                      (forall c f, pending (dy s c) = Some f -> f = spec c) /\
+                      (forall c, 0 < runs (dy s c) -> rule spec c = false)
 }.
-
-(* once a failure has been observed every component is staged: nothing is launched any more *)
-Definition kinv (s : state) : Prop :=
-  kbase s /\ (~ calm s -> forall c, c < ncomp W -> staged (dy s c) = true).
 
 Lemma kbase_state0 : kbase state0.
 Proof.
-  constructor; cbn; intros; try discriminate; try lia; auto. split; intros; discriminate.
+  constructor; cbn; intros; try discriminate; try lia; auto. repeat split; intros; try discriminate; lia.
 Qed.
 
-Lemma kinv_state0 : kinv state0.
-Proof. split; [exact kbase_state0|]. intros H. exfalso. apply H. intros x []. Qed.
+Lemma qcalm_iff s s' : (calm s' <-> calm s) -> (qcalm s' <-> qcalm s).
+Proof. unfold qcalm. tauto. Qed.
 
 (* one component changes; the set of delivered components does not *)
 Lemma kbase_upd s c d' (s' : state) :
   kbase s -> (forall x, dy s' x = upd (dy s) c d' x) -> done s' = done s ->
-  (forall f, ctl d' = Some f -> f = spec c \/ f = Shutdown) ->
+  (forall f, ctl d' = Some f -> f = Shutdown \/ (0 < runs d' /\ f = walk0 W outcome c)) ->
   (forall f, pending d' = Some f -> f = Shutdown) ->
-  (0 < runs d' -> rule spec c = false) ->
   (0 < runs d' -> finish_called d' = false ->
      Nat.pred (runs d') = restarts d' + resub d' /\ restarts d' <= max_r (cmp W c) /\ resub d' <= 5 /\
      walk W outcome c (fuel_of W c - Nat.pred (runs d')) (Nat.pred (runs d')) (restarts d', resub d') = walk0 W outcome c) ->
   (forall r, e d' = Exited r -> finish_called d' = false -> r = outcome c (Nat.pred (runs d'))) ->
   (shut d' = true -> finish_called d' = true) ->
   (runs d' = 0 -> restarts d' = 0 /\ resub d' = 0) ->
-  (calm s -> (forall f, ctl d' = Some f -> f = spec c) /\ (forall f, pending d' = Some f -> f = spec c)) ->
+  (qcalm s -> (forall f, ctl d' = Some f -> f = spec c) /\ (forall f, pending d' = Some f -> f = spec c) /\
+              (0 < runs d' -> rule spec c = false)) ->
   (In c (done s) -> ctl d' = ctl (dy s c)) ->
   kbase s' /\ (calm s' <-> calm s).
 Proof.
-  intros K Hd Hdn A1 A2 A3 A4 A5 A6 A7 A8 A9.
+  intros K Hd Hdn A1 A2 A4 A5 A6 A7 A8 A9.
   assert (Calm : calm s' <-> calm s).
   { split; intros C x Hx.
     - specialize (C x). rewrite Hdn in C. specialize (C Hx). rewrite (Hd x) in C. unfold upd in C.
@@ -88,19 +91,20 @@ Proof.
   split; [|exact Calm]. constructor.
   - intros x. rewrite (Hd x). unfold upd. destruct (Nat.eqb x c) eqn:E; [apply Nat.eqb_eq in E; subst x; exact A1|exact (b_ctl _ K x)].
   - intros x. rewrite (Hd x). unfold upd. destruct (Nat.eqb x c) eqn:E; [apply Nat.eqb_eq in E; subst x; exact A2|exact (b_pend _ K x)].
-  - intros x. rewrite (Hd x). unfold upd. destruct (Nat.eqb x c) eqn:E; [apply Nat.eqb_eq in E; subst x; exact A3|exact (b_rule _ K x)].
   - intros x. rewrite (Hd x). unfold upd. destruct (Nat.eqb x c) eqn:E; [apply Nat.eqb_eq in E; subst x; exact A4|exact (b_walk _ K x)].
   - intros x. rewrite (Hd x). unfold upd. destruct (Nat.eqb x c) eqn:E; [apply Nat.eqb_eq in E; subst x; exact A5|exact (b_exit _ K x)].
   - intros x. rewrite (Hd x). unfold upd. destruct (Nat.eqb x c) eqn:E; [apply Nat.eqb_eq in E; subst x; exact A6|exact (b_shut _ K x)].
   - intros x. rewrite (Hd x). unfold upd. destruct (Nat.eqb x c) eqn:E; [apply Nat.eqb_eq in E; subst x; exact A7|exact (b_fresh _ K x)].
-  - intros C. apply Calm in C. destruct (b_calm _ K C) as [B1 B2]. destruct (A8 C) as [B3 B4]. split.
+  - intros C. apply (qcalm_iff s s' Calm) in C. destruct (b_calm _ K C) as [B1 [B2 B5]]. destruct (A8 C) as [B3 [B4 B6]].
+    split; [|split].
     + intros x. rewrite (Hd x). unfold upd. destruct (Nat.eqb x c) eqn:E; [apply Nat.eqb_eq in E; subst x; exact B3|exact (B1 x)].
     + intros x. rewrite (Hd x). unfold upd. destruct (Nat.eqb x c) eqn:E; [apply Nat.eqb_eq in E; subst x; exact B4|exact (B2 x)].
+    + intros x. rewrite (Hd x). unfold upd. destruct (Nat.eqb x c) eqn:E; [apply Nat.eqb_eq in E; subst x; exact B6|exact (B5 x)].
 Qed.
 
 (* finish(SHUTDOWN): while calm only allowed where the rule gives shut-down *)
 Lemma finish_K s c :
-  Inv s -> kbase s -> ctl (dy s c) = None -> (calm s -> spec c = Shutdown) ->
+  Inv s -> kbase s -> ctl (dy s c) = None -> (qcalm s -> spec c = Shutdown) ->
   kbase (finish s c Shutdown) /\ (calm (finish s c Shutdown) <-> calm s).
 Proof.
   intros [I1 [I2 _]] K Hc Hx.
@@ -113,50 +117,51 @@ Proof.
   - apply (kbase_upd s c (d_finish Shutdown (dy s c)) _ K Hd Hdn); unfold d_finish; rewrite R; cbn.
     + intros g H. exact (b_ctl _ K c g H).
     + intros g H. inversion H. reflexivity.
-    + exact (b_rule _ K c).
     + intros _ H. discriminate.
     + intros r _ H. discriminate.
     + intros _. reflexivity.
     + exact (b_fresh _ K c).
-    + intros C. split; [intros g H; congruence|intros g H; inversion H; symmetry; exact (Hx C)].
+    + intros C. destruct (b_calm _ K C) as [_ [_ B5]].
+      split; [intros g H; congruence|split; [intros g H; inversion H; symmetry; exact (Hx C)|exact (B5 c)]].
     + intros H. destruct (ND H).
   - apply (kbase_upd s c (d_finish Shutdown (dy s c)) _ K Hd Hdn); unfold d_finish; rewrite R; cbn.
-    + intros g H. inversion H. right. reflexivity.
+    + intros g H. inversion H. left. reflexivity.
     + intros g H. exact (b_pend _ K c g H).
-    + exact (b_rule _ K c).
     + intros _ H. discriminate.
     + intros r _ H. discriminate.
     + intros _. reflexivity.
     + exact (b_fresh _ K c).
-    + intros C. split; [intros g H; inversion H; symmetry; exact (Hx C)|exact (proj2 (b_calm _ K C) c)].
+    + intros C. destruct (b_calm _ K C) as [_ [B2 B5]].
+      split; [intros g H; inversion H; symmetry; exact (Hx C)|split; [exact (B2 c)|exact (B5 c)]].
     + intros H. destruct (ND H).
 Qed.
 
 (* the final state given by postMortemCheck (the component is in post-mortem: the state is set at once) *)
 Lemma finish_exact_K s c f :
-  Inv s -> kbase s -> ctl (dy s c) = None -> is_run (cstate (dy s c)) = false -> f = spec c ->
+  Inv s -> kbase s -> ctl (dy s c) = None -> is_run (cstate (dy s c)) = false ->
+  0 < runs (dy s c) -> f = walk0 W outcome c -> (qcalm s -> f = spec c) ->
   kbase (finish s c f) /\ (calm (finish s c f) <-> calm s).
 Proof.
-  intros [I1 [I2 _]] K Hc R Hf.
+  intros [I1 [I2 _]] K Hc R Hrun Hw Hf.
   assert (Hd : forall x, dy (finish s c f) x = upd (dy s) c (d_finish f (dy s c)) x)
     by (intros x; unfold finish; destruct (negb _ && negb _); reflexivity).
   assert (Hdn : done (finish s c f) = done s) by (unfold finish; destruct (negb _ && negb _); reflexivity).
   assert (ND : In c (done s) -> False).
   { intros H. specialize (I2 c H). unfold pstate in I2. apply is_fin_ctl in I2 as [g Hg]. congruence. }
   apply (kbase_upd s c (d_finish f (dy s c)) _ K Hd Hdn); unfold d_finish; rewrite R; cbn.
-  - intros g H. left. inversion H. subst. reflexivity.
+  - intros g H. right. inversion H. subst g. split; [exact Hrun|exact Hw].
   - intros g H. exact (b_pend _ K c g H).
-  - exact (b_rule _ K c).
   - intros _ H. discriminate.
   - intros r _ H. discriminate.
   - intros _. reflexivity.
   - exact (b_fresh _ K c).
-  - intros C. split; [intros g H; inversion H; subst; reflexivity|exact (proj2 (b_calm _ K C) c)].
+  - intros C. destruct (b_calm _ K C) as [_ [B2 B5]].
+    split; [intros g H; inversion H; subst g; exact (Hf C)|split; [exact (B2 c)|exact (B5 c)]].
   - intros H. destruct (ND H).
 Qed.
 
 Lemma fake_finish_K s c :
-  Inv s -> kbase s -> staged (dy s c) = false -> (calm s -> spec c = Shutdown) ->
+  Inv s -> kbase s -> staged (dy s c) = false -> (qcalm s -> spec c = Shutdown) ->
   kbase (fake_finish s c Shutdown) /\ (calm (fake_finish s c Shutdown) <-> calm s).
 Proof.
   intros I K Us Hx. pose proof I as [I1 [I2 _]].
@@ -169,20 +174,23 @@ Proof.
   apply (kbase_upd s c _ _ K Hd Hdn); unfold d_finish; rewrite R; unfold d_stage; cbn.
   - intros g H. exact (b_ctl _ K c g H).
   - intros g H. inversion H. reflexivity.
-  - exact (b_rule _ K c).
   - intros _ H. discriminate.
   - intros r _ H. discriminate.
   - intros _. reflexivity.
   - exact (b_fresh _ K c).
-  - intros Cm. split; [intros g H; congruence|intros g H; inversion H; symmetry; exact (Hx Cm)].
+  - intros Cm. destruct (b_calm _ K Cm) as [_ [_ B5]].
+    split; [intros g H; congruence|split; [intros g H; inversion H; symmetry; exact (Hx Cm)|exact (B5 c)]].
   - intros H. specialize (I2 c H). unfold pstate in I2. apply is_fin_ctl in I2 as [g Hg]. congruence.
 Qed.
 
 Lemma kbase_same s s' : dy s' = dy s -> done s' = done s -> kbase s -> kbase s' /\ (calm s' <-> calm s).
 Proof.
   intros Hd Hn K. assert (C : calm s' <-> calm s) by (unfold calm; rewrite Hd, Hn; tauto).
-  split; [|exact C]. destruct K. constructor; rewrite ?Hd; auto. intros X. apply C in X. auto.
+  split; [|exact C]. destruct K. constructor; rewrite ?Hd; auto. intros X. apply (qcalm_iff s s' C) in X. auto.
 Qed.
+
+Lemma not_qcalm s (P : Prop) : ~ calm s -> qcalm s -> P.
+Proof. intros NC [_ [_ C]]. destruct (NC C). Qed.
 
 (* ---- folds used by the failure handling, in a state where a failure has already been observed *)
 Lemma stop_components_K : forall cs s,
@@ -194,7 +202,7 @@ Proof.
   destruct (alive (dy s c) && negb (finish_called (dy s c))) eqn:G.
   - apply andb_true_iff in G as [G1 _].
     destruct (finish_ok s c Shutdown I (alive_ctl _ G1) (Hs c (or_introl eq_refl))) as [I' [X' _]].
-    destruct (finish_K s c I K (alive_ctl _ G1) (fun C => False_ind _ (NC C))) as [K' C'].
+    destruct (finish_K s c I K (alive_ctl _ G1) (not_qcalm s _ NC)) as [K' C'].
     apply IH; [exact I'|exact K'|intros C; apply NC, C', C|].
     intros x Hx. apply (x_staged _ _ X'). apply Hs. right. exact Hx.
   - apply IH; [exact I|exact K|exact NC|]. intros x Hx. apply Hs. right. exact Hx.
@@ -210,10 +218,10 @@ Proof.
   destruct (negb (finish_called (dy s c)) && alive (dy s c)) eqn:G; [|apply IH; assumption].
   apply andb_true_iff in G as [_ G2]. destruct (staged (dy s c)) eqn:St.
   - destruct (finish_ok s c Shutdown I (alive_ctl _ G2) St) as [I' _].
-    destruct (finish_K s c I K (alive_ctl _ G2) (fun C => False_ind _ (NC C))) as [K' C'].
+    destruct (finish_K s c I K (alive_ctl _ G2) (not_qcalm s _ NC)) as [K' C'].
     apply IH; [exact I'|exact K'|intros C; apply NC, C', C].
   - destruct (fake_finish_ok s c Shutdown I St) as [I' _].
-    destruct (fake_finish_K s c I K St (fun C => False_ind _ (NC C))) as [K' C'].
+    destruct (fake_finish_K s c I K St (not_qcalm s _ NC)) as [K' C'].
     apply IH; [exact I'|exact K'|intros C; apply NC, C', C].
 Qed.
 
@@ -227,14 +235,14 @@ Proof.
   destruct (negb (staged (dy s c)) && negb (finish_called (dy s c))) eqn:G; [|apply IH; assumption].
   apply andb_true_iff in G as [G1 _]. apply negb_true_iff in G1.
   destruct (fake_finish_ok s c Shutdown I G1) as [I' _].
-  destruct (fake_finish_K s c I K G1 (fun C => False_ind _ (NC C))) as [K' C'].
+  destruct (fake_finish_K s c I K G1 (not_qcalm s _ NC)) as [K' C'].
   apply IH; [exact I'|exact K'|intros C; apply NC, C', C].
 Qed.
 
 (* ---- the scheduler pass *)
-Lemma deps_agree_K s c : Inv s -> kbase s -> calm s -> deps_ok W true s c = true -> shutdown_rule W s c = rule spec c.
+Lemma deps_agree_K s c : Inv s -> kbase s -> qcalm s -> deps_ok W true s c = true -> shutdown_rule W s c = rule spec c.
 Proof.
-  intros [I1 [I2 _]] K C H. destruct (b_calm _ K C) as [Ex _]. apply rule_agree. intros p Hp.
+  intros [I1 [I2 _]] K C H. destruct (b_calm _ K C) as [Ex _]. destruct C as [_ [Subjects _]]. apply rule_agree. intros p Hp.
   unfold deps_ok in H. rewrite forallb_forall in H. specialize (H p Hp). apply orb_true_iff in H as [H|H].
   - apply memn_In in H. specialize (I2 p H). unfold pstate in I2. apply is_fin_ctl in I2 as [f Hf].
     rewrite <- (Ex p f Hf). exact (pstate_of_ctl s p f Hf).
@@ -242,47 +250,53 @@ Proof.
     rewrite (Subjects c p Hp H1). cbn. apply pstate_of_none. apply linv_ctl_none_of_not_fc; [apply I1|exact H3].
 Qed.
 
+(* the components collected for launching are, as long as the state is calm, not shut down by the rule *)
+Definition ready_q (si : state) (ready : list nat) : Prop := qcalm si -> ready_ok W outcome ready.
+
 Lemma visit_K s si ready c :
-  PassInv W s si ready -> kinv si -> ready_ok W outcome ready -> c < ncomp W ->
-  kinv (fst (sched_visit W true (si, ready) c)) /\ ready_ok W outcome (snd (sched_visit W true (si, ready) c)).
+  PassInv W s si ready -> kbase si -> ready_q si ready ->
+  kbase (fst (sched_visit W true (si, ready) c)) /\
+  (calm (fst (sched_visit W true (si, ready) c)) <-> calm si) /\
+  ready_q (fst (sched_visit W true (si, ready) c)) (snd (sched_visit W true (si, ready) c)).
 Proof.
-  intros P [K St] R Hc. unfold sched_visit.
+  intros P K R. unfold sched_visit.
   destruct (memn c (done si) || is_fin (pstate si c) || staged (dy si c) || negb (deps_ok W true si c)) eqn:G;
-    [split; [split|]; assumption|].
+    [split; [exact K|split; [tauto|exact R]]|].
   apply orb_false_iff in G as [G G4]. apply negb_false_iff in G4. apply orb_false_iff in G as [_ G3].
-  assert (C : calm si).
-  { destruct (Classical_calm si) as [C|NC]; [exact C|]. pose proof (St NC c Hc). congruence. }
-  pose proof (deps_agree_K si c (p_inv _ _ _ _ P) K C G4) as A.
   destruct (shutdown_rule W si c) eqn:Sr; cbn [fst snd].
   - destruct (fake_finish_K si c (p_inv _ _ _ _ P) K G3) as [K' C'].
-    { intros _. rewrite (spec_eq W outcome WF c), <- A. reflexivity. }
-    split; [|exact R]. split; [exact K'|]. intros NC. exfalso. apply NC, C', C.
-  - split; [split; assumption|]. intros x Hx. apply in_app_or in Hx as [Hx|[<-|[]]]; [exact (R x Hx)|]. rewrite <- A. reflexivity.
+    { intros Q. pose proof (deps_agree_K si c (p_inv _ _ _ _ P) K Q G4) as A.
+      destruct Q as [WF _]. rewrite (spec_eq W outcome WF c), <- A, Sr. reflexivity. }
+    split; [exact K'|split; [exact C'|]]. intros Q. apply R. apply (qcalm_iff si _ C'). exact Q.
+  - split; [exact K|split; [tauto|]]. intros Q x Hx. apply in_app_or in Hx as [Hx|[<-|[]]]; [exact (R Q x Hx)|].
+    rewrite <- (deps_agree_K si c (p_inv _ _ _ _ P) K Q G4). exact Sr.
 Qed.
 
 Lemma visits_K s : forall l si ready,
-  PassInv W s si ready -> NoDup l -> (forall c, In c ready -> ~ In c l) -> (forall c, In c l -> c < ncomp W) ->
-  kinv si -> ready_ok W outcome ready ->
-  kinv (fst (fold_left (sched_visit W true) l (si, ready))) /\
-  ready_ok W outcome (snd (fold_left (sched_visit W true) l (si, ready))).
+  PassInv W s si ready -> NoDup l -> (forall c, In c ready -> ~ In c l) ->
+  kbase si -> ready_q si ready ->
+  kbase (fst (fold_left (sched_visit W true) l (si, ready))) /\
+  (calm (fst (fold_left (sched_visit W true) l (si, ready))) <-> calm si) /\
+  ready_q (fst (fold_left (sched_visit W true) l (si, ready))) (snd (fold_left (sched_visit W true) l (si, ready))).
 Proof.
-  induction l as [|c l IH]; intros si ready P Hl Hr Hb K R; cbn [fold_left]; [split; assumption|].
+  induction l as [|c l IH]; intros si ready P Hl Hr K R; cbn [fold_left]; [split; [exact K|split; [tauto|exact R]]|].
   inversion Hl as [|? ? Hc Hl']; subst.
   assert (Hn : ~ In c ready) by (intros H; apply (Hr c H); left; reflexivity).
   pose proof (visit_ok W s si ready c P Hn) as V.
-  pose proof (visit_K s si ready c P K R (Hb c (or_introl eq_refl))) as VK.
-  destruct (sched_visit W true (si, ready) c) as [si' ready'] eqn:E. destruct V as [P' Sub]. destruct VK as [K' R'].
-  apply IH; auto.
+  pose proof (visit_K s si ready c P K R) as VK.
+  destruct (sched_visit W true (si, ready) c) as [si' ready'] eqn:E. destruct V as [P' Sub]. destruct VK as [K' [C' R']].
+  cbn [fst snd] in *.
+  destruct (IH si' ready' P' Hl') as [K2 [C2 R2]]; auto.
   - intros x Hx Hi. destruct (Sub x Hx) as [H|H]; [apply (Hr x H); right; exact Hi|subst x; contradiction].
-  - intros x Hx. apply Hb. right. exact Hx.
+  - split; [exact K2|split; [tauto|exact R2]].
 Qed.
 
-Lemma sched_pass_K s : Inv s -> kinv s -> kinv (sched_pass W true s).
+Lemma sched_pass_K s : Inv s -> kbase s -> kbase (sched_pass W true s) /\ (calm (sched_pass W true s) <-> calm s).
 Proof.
   intros I K. unfold sched_pass.
   pose proof (visits_ok W s (nodes W) s [] (PassInv_init W s I) (seq_NoDup _ _) (fun c H => match H with end)) as P.
   pose proof (visits_K s (nodes W) s [] (PassInv_init W s I) (seq_NoDup _ _) (fun c H => match H with end)
-                (in_nodes W) K (fun c H => match H with end)) as [[K1 S1] R1].
+                K (fun _ c H => match H with end)) as [K1 [C1 R1]].
   destruct (fold_left (sched_visit W true) (nodes W) (s, [])) as [s1 ready] eqn:E. cbn [fst snd] in *.
   destruct (stop s1); [split; assumption|].
   destruct (submit_spec s1 ready (p_nodup _ _ _ _ P)) as [D [C F]].
@@ -292,40 +306,41 @@ Proof.
             {| staged := true; runs := S (runs (dy s1 c)); finish_called := finish_called (dy s1 c);
                pending := pending (dy s1 c); kill_req := kill_req (dy s1 c); e := Active; ctl := ctl (dy s1 c);
                restarts := restarts (dy s1 c); resub := resub (dy s1 c); shut := shut (dy s1 c) |} /\
-            runs (dy s1 c) = 0).
+            runs (dy s1 c) = 0 /\ ctl (dy s1 c) = None).
   { intros c Hc. rewrite D. apply memn_In in Hc as M. rewrite M. destruct (p_ready _ _ _ _ P c Hc) as [Us _].
-    split; [apply launch_eq; [apply I1|exact Us]|]. destruct (l_unstaged _ (I1 c) Us) as [_ [_ [Hr _]]]. exact Hr. }
+    split; [apply launch_eq; [apply I1|exact Us]|]. destruct (l_unstaged _ (I1 c) Us) as [_ [Hct [Hr _]]]. split; assumption. }
   assert (Dn : forall c, ~ In c ready -> dy (submit s1 ready) c = dy s1 c).
   { intros c Hc. rewrite D. destruct (memn c ready) eqn:M; [apply memn_In in M; contradiction|reflexivity]. }
   assert (Ctl : forall c, ctl (dy (submit s1 ready) c) = ctl (dy s1 c) /\ pending (dy (submit s1 ready) c) = pending (dy s1 c)).
   { intros c. destruct (in_dec Nat.eq_dec c ready) as [Hc|Hc]; [destruct (Dr c Hc) as [-> _]; split; reflexivity|rewrite (Dn c Hc); split; reflexivity]. }
   assert (Cm : calm (submit s1 ready) <-> calm s1).
   { unfold calm. rewrite Dn'. split; intros H c Hc; specialize (H c Hc); destruct (Ctl c) as [Q _]; congruence. }
-  split.
-  - constructor.
-    + intros c f. destruct (Ctl c) as [Q _]. rewrite Q. exact (b_ctl _ K1 c f).
-    + intros c f. destruct (Ctl c) as [_ Q]. rewrite Q. exact (b_pend _ K1 c f).
+  split; [|tauto].
+  constructor.
+  - intros c f. destruct (in_dec Nat.eq_dec c ready) as [Hc|Hc].
+    + destruct (Dr c Hc) as [-> [_ Hn]]. cbn. rewrite Hn. discriminate.
+    + rewrite (Dn c Hc). exact (b_ctl _ K1 c f).
+  - intros c f. destruct (Ctl c) as [_ Q]. rewrite Q. exact (b_pend _ K1 c f).
+  - intros c. destruct (in_dec Nat.eq_dec c ready) as [Hc|Hc]; [|rewrite (Dn c Hc); exact (b_walk _ K1 c)].
+    destruct (Dr c Hc) as [-> [Hr _]]. cbn. destruct (b_fresh _ K1 c Hr) as [F1 F2]. rewrite Hr, F1, F2. cbn.
+    intros _ _. rewrite Nat.sub_0_r. repeat split; lia.
+  - intros c r. destruct (in_dec Nat.eq_dec c ready) as [Hc|Hc];
+      [destruct (Dr c Hc) as [-> _]; cbn; discriminate|rewrite (Dn c Hc); exact (b_exit _ K1 c r)].
+  - intros c. destruct (in_dec Nat.eq_dec c ready) as [Hc|Hc];
+      [destruct (Dr c Hc) as [-> _]; cbn; exact (b_shut _ K1 c)|rewrite (Dn c Hc); exact (b_shut _ K1 c)].
+  - intros c. destruct (in_dec Nat.eq_dec c ready) as [Hc|Hc];
+      [destruct (Dr c Hc) as [-> _]; cbn; discriminate|rewrite (Dn c Hc); exact (b_fresh _ K1 c)].
+  - intros Cx. apply (qcalm_iff s1 _ Cm) in Cx. destruct (b_calm _ K1 Cx) as [B1 [B2 B5]]. split; [|split].
+    + intros c f. destruct (Ctl c) as [Q1 _]. rewrite Q1. exact (B1 c f).
+    + intros c f. destruct (Ctl c) as [_ Q2]. rewrite Q2. exact (B2 c f).
     + intros c. destruct (in_dec Nat.eq_dec c ready) as [Hc|Hc];
-        [intros _; exact (R1 c Hc)|rewrite (Dn c Hc); exact (b_rule _ K1 c)].
-    + intros c. destruct (in_dec Nat.eq_dec c ready) as [Hc|Hc]; [|rewrite (Dn c Hc); exact (b_walk _ K1 c)].
-      destruct (Dr c Hc) as [-> Hr]. cbn. destruct (b_fresh _ K1 c Hr) as [F1 F2]. rewrite Hr, F1, F2. cbn.
-      intros _ _. rewrite Nat.sub_0_r. repeat split; lia.
-    + intros c r. destruct (in_dec Nat.eq_dec c ready) as [Hc|Hc];
-        [destruct (Dr c Hc) as [-> _]; cbn; discriminate|rewrite (Dn c Hc); exact (b_exit _ K1 c r)].
-    + intros c. destruct (in_dec Nat.eq_dec c ready) as [Hc|Hc];
-        [destruct (Dr c Hc) as [-> _]; cbn; exact (b_shut _ K1 c)|rewrite (Dn c Hc); exact (b_shut _ K1 c)].
-    + intros c. destruct (in_dec Nat.eq_dec c ready) as [Hc|Hc];
-        [destruct (Dr c Hc) as [-> _]; cbn; discriminate|rewrite (Dn c Hc); exact (b_fresh _ K1 c)].
-    + intros Cx. apply Cm in Cx. destruct (b_calm _ K1 Cx) as [B1 B2]. split; intros c f; destruct (Ctl c) as [Q1 Q2];
-        [rewrite Q1; exact (B1 c f)|rewrite Q2; exact (B2 c f)].
-  - intros NC c Hc. assert (NC1 : ~ calm s1) by (intros X; apply NC, Cm, X).
-    destruct (in_dec Nat.eq_dec c ready) as [Hr|Hr]; [destruct (Dr c Hr) as [-> _]; reflexivity|rewrite (Dn c Hr); exact (S1 NC1 c Hc)].
+        [intros _; exact (R1 Cx c Hc)|rewrite (Dn c Hc); exact (B5 c)].
 Qed.
 
 (* ---- the other events *)
-Lemma exit_K s c s' : Inv s -> kinv s -> exit_comp W outcome s c = Some s' -> kinv s'.
+Lemma exit_K s c s' : Inv s -> kbase s -> exit_comp W outcome s c = Some s' -> kbase s' /\ (calm s' <-> calm s).
 Proof.
-  intros I [K St] H. pose proof I as [I1 [I2 _]]. unfold exit_comp in H.
+  intros I K H. pose proof I as [I1 [I2 _]]. unfold exit_comp in H.
   destruct (negb (c <? ncomp W) || negb (exit_enabled (dy s c))) eqn:G; [discriminate|].
   apply orb_false_iff in G as [_ G]. apply negb_false_iff in G. pose proof (I1 c) as L.
   assert (Hctl : ctl (dy s c) = None).
@@ -333,52 +348,40 @@ Proof.
     unfold exit_enabled in G. rewrite Er in G. discriminate. }
   assert (ND : In c (done s) -> False).
   { intros Hx. specialize (I2 c Hx). unfold pstate in I2. apply is_fin_ctl in I2 as [g Hg]. congruence. }
-  assert (Hst : staged (dy s c) = true).
-  { destruct (staged (dy s c)) eqn:E; [reflexivity|]. destruct (l_unstaged _ L E) as [He [_ [_ Hf]]].
-    unfold exit_enabled in G. rewrite He in G. apply (l_kill _ L) in G. congruence. }
-  assert (Fin : forall d' s'', (forall x, dy s'' x = upd (dy s) c d' x) -> done s'' = done s -> staged d' = true ->
-            (kbase s'' /\ (calm s'' <-> calm s)) -> kinv s'').
-  { intros d' s'' Hd Hdn Hs' [K' C']. split; [exact K'|]. intros NC x Hx. rewrite (Hd x). unfold upd.
-    destruct (Nat.eqb x c); [exact Hs'|]. apply St; [intros X; apply NC, C', X|exact Hx]. }
   destruct (finish_called (dy s c)) eqn:Fc.
   - match type of H with context [set_dy s c ?D] => set (d' := D) in * end.
     assert (KB : forall s'', (forall x, dy s'' x = upd (dy s) c d' x) -> done s'' = done s -> kbase s'' /\ (calm s'' <-> calm s)).
     { intros s'' Hd Hdn. apply (kbase_upd s c d' s'' K Hd Hdn); unfold d'; cbn.
-      - intros f Hf. right. exact (b_pend _ K c f Hf).
+      - intros f Hf. left. exact (b_pend _ K c f Hf).
       - exact (b_pend _ K c).
-      - exact (b_rule _ K c).
       - intros _ Hx. discriminate.
       - intros r _ Hx. discriminate.
       - intros _. reflexivity.
       - exact (b_fresh _ K c).
-      - intros C. destruct (b_calm _ K C) as [_ B2]. split; exact (B2 c).
+      - intros C. destruct (b_calm _ K C) as [_ [B2 B5]]. split; [exact (B2 c)|split; [exact (B2 c)|exact (B5 c)]].
       - intros Hx. destruct (ND Hx). }
-    destruct (pending (dy s c)); inversion H; subst s'.
-    + apply (Fin d'); [intros x; reflexivity|reflexivity|exact Hst|apply KB; [intros x; reflexivity|reflexivity]].
-    + apply (Fin d'); [intros x; reflexivity|reflexivity|exact Hst|apply KB; [intros x; reflexivity|reflexivity]].
+    destruct (pending (dy s c)); inversion H; subst s'; (apply KB; [intros x; reflexivity|reflexivity]).
   - match type of H with context [set_dy s c ?D] => set (d' := D) in * end.
     assert (Act : e (dy s c) = Active).
     { unfold exit_enabled in G. destruct (e (dy s c)) eqn:E; [|reflexivity|discriminate]. apply (l_kill _ L) in G. congruence. }
-    inversion H; subst s'. apply (Fin d'); [intros x; reflexivity|reflexivity|exact Hst|].
+    inversion H; subst s'.
     match goal with |- kbase ?S /\ _ => apply (kbase_upd s c d' S K (fun x => eq_refl) eq_refl) end; unfold d'; cbn.
     + exact (b_ctl _ K c).
     + exact (b_pend _ K c).
-    + exact (b_rule _ K c).
     + intros H1 _. exact (b_walk _ K c H1 Fc).
     + intros r Hr _. rewrite Act in Hr. inversion Hr. reflexivity.
     + intros Hx. pose proof (b_shut _ K c Hx). congruence.
     + exact (b_fresh _ K c).
-    + intros C. destruct (b_calm _ K C) as [B1 B2]. split; [exact (B1 c)|exact (B2 c)].
+    + intros C. destruct (b_calm _ K C) as [B1 [B2 B5]]. split; [exact (B1 c)|split; [exact (B2 c)|exact (B5 c)]].
     + intros _. reflexivity.
 Qed.
 
-Lemma pm_K s c s' : Inv s -> kinv s -> deliver_pm W s c = Some s' -> kinv s'.
+Lemma pm_K s c s' : Inv s -> kbase s -> deliver_pm W s c = Some s' -> kbase s' /\ (calm s' <-> calm s).
 Proof.
-  intros I [K St] H. unfold deliver_pm in H. destruct (negb (memn c (pmq s))); [discriminate|].
+  intros I K H. unfold deliver_pm in H. destruct (negb (memn c (pmq s))); [discriminate|].
   match type of H with context [dy ?S0 c] => set (s0 := S0) in * end.
   assert (I0 : Inv s0) by (apply (Inv_sub s); auto).
   destruct (kbase_same s s0 eq_refl eq_refl K) as [K0 C0].
-  assert (St0 : ~ calm s0 -> forall x, x < ncomp W -> staged (dy s0 x) = true) by (intros NC; apply St; intros X; apply NC, C0, X).
   assert (Ds : dy s0 = dy s) by reflexivity. assert (Dn0 : done s0 = done s) by reflexivity. clearbody s0.
   pose proof I0 as [I1 [I2 _]]. pose proof (I1 c) as L.
   destruct (finish_called (dy s0 c)) eqn:Fc; [inversion H; subst; split; assumption|].
@@ -388,8 +391,6 @@ Proof.
   assert (Hst : staged (dy s0 c) = true) by (apply linv_staged_of_nonidle; [exact L|congruence]).
   assert (Hshut : shut (dy s0 c) = false).
   { destruct (shut (dy s0 c)) eqn:Sh; [|reflexivity]. pose proof (b_shut _ K0 c Sh). congruence. }
-  assert (ND : In c (done s0) -> False).
-  { intros Hx. specialize (I2 c Hx). unfold pstate in I2. apply is_fin_ctl in I2 as [g Hg]. congruence. }
   destruct (b_walk _ K0 c Hrun Fc) as [Wn [Wr [Wb Ww]]].
   pose proof (b_exit _ K0 c r Ee Fc) as Hr.
   set (n := Nat.pred (runs (dy s0 c))) in *.
@@ -399,35 +400,31 @@ Proof.
   destruct (decide W c (restarts (dy s0 c), resub (dy s0 c)) r) as [[rs' rb']|] eqn:Dc.
   - destruct (decide_bounds W c _ _ r rs' rb' Dc Wr Wb) as [B1 [B2 B3]].
     inversion H; subst s'.
-    match goal with |- kinv (set_dy s0 c ?D) => set (d' := D) end.
+    match goal with |- kbase (set_dy s0 c ?D) /\ _ => set (d' := D) end.
     destruct (kbase_upd s0 c d' (set_dy s0 c d') K0 (fun x => eq_refl) eq_refl) as [K' C']; unfold d'; cbn.
-    + exact (b_ctl _ K0 c).
+    + intros f Hf. destruct (b_ctl _ K0 c f Hf) as [X|[X1 X2]]; [left; exact X|right; split; [lia|exact X2]].
     + exact (b_pend _ K0 c).
-    + intros _. exact (b_rule _ K0 c Hrun).
     + intros _ _. replace (runs (dy s0 c)) with (S n) by (unfold n; lia). repeat split; try lia. exact Ww.
     + intros r0 Hx. discriminate.
     + intros Hx. congruence.
     + intros Hx. discriminate.
-    + intros C. destruct (b_calm _ K0 C) as [E1 E2]. split; [exact (E1 c)|exact (E2 c)].
+    + intros C. destruct (b_calm _ K0 C) as [E1 [E2 E5]]. split; [exact (E1 c)|split; [exact (E2 c)|intros _; exact (E5 c Hrun)]].
     + intros _. reflexivity.
-    + split; [exact K'|]. intros NC x Hx. cbn. unfold upd. destruct (Nat.eqb x c) eqn:E; [unfold d'; cbn; exact Hst|].
-      apply St0; [intros X; apply NC, C', X|exact Hx].
+    + split; [exact K'|tauto].
   - inversion H; subst s'.
     assert (NR : is_run (cstate (dy s0 c)) = false) by (unfold cstate; rewrite Hctl, Ee; reflexivity).
-    destruct (finish_exact_K s0 c (final_of_reason W c r) I0 K0 Hctl NR) as [K' C'].
-    { rewrite (spec_eq W outcome WF c), (b_rule _ K0 c Hrun). rewrite <- Ww. reflexivity. }
-    destruct (finish_ok s0 c (final_of_reason W c r) I0 Hctl Hst) as [_ [X' _]].
-    split; [exact K'|]. intros NC x Hx. apply (x_staged _ _ X'). apply St0; [intros X; apply NC, C', X|exact Hx].
+    destruct (finish_exact_K s0 c (final_of_reason W c r) I0 K0 Hctl NR Hrun) as [K' C'].
+    { rewrite <- Ww. reflexivity. }
+    { intros Q. destruct (b_calm _ K0 Q) as [_ [_ E5]]. destruct Q as [WF _].
+      rewrite (spec_eq W outcome WF c), (E5 c Hrun). rewrite <- Ww. reflexivity. }
+    split; [exact K'|tauto].
 Qed.
 
-Lemma stage_nodes_all c : c < ncomp W -> In c (stage_nodes W 0).
+(* finishedCheck: the state stays calm unless the delivered component is failed *)
+Lemma fin_K s c s' : Inv s -> kbase s -> deliver_fin W s c = Some s' ->
+  kbase s' /\ (calm s' -> calm s) /\ (calm s -> ctl (dy s c) <> Some Failed -> calm s').
 Proof.
-  intros H. unfold stage_nodes. apply filter_In. split; [unfold nodes; apply in_seq; lia|]. rewrite Single. reflexivity.
-Qed.
-
-Lemma fin_K s c s' : Inv s -> kinv s -> deliver_fin W s c = Some s' -> kinv s'.
-Proof.
-  intros I [K St] H. unfold deliver_fin in H. destruct (memn c (finq s)) eqn:M; [|discriminate]. cbn [negb] in H.
+  intros I K H. unfold deliver_fin in H. destruct (memn c (finq s)) eqn:M; [|discriminate]. cbn [negb] in H.
   apply memn_In in M.
   match type of H with context [is_failed (pstate ?S0 c)] => set (s0 := S0) in * end.
   assert (Fc : is_fin (pstate s c) = true) by (destruct I as [_ [_ I3]]; exact (I3 c M)).
@@ -437,16 +434,18 @@ Proof.
     - intros x Hx. cbn in Hx. apply in_app_or in Hx as [Hx|[<-|[]]]; [exact (I2 x Hx)|exact Fc].
     - intros x Hx. cbn in Hx. exact (I3 x (In_remove1 _ _ _ Hx)). }
   inversion H; subst s'; clear H.
-  match goal with |- kinv {| dy := dy ?S1; done := _; stop := _; cur := _; pmq := _; finq := _; running := _; verdict := _ |} =>
-    change (kinv (add_done S1 c)) end.
+  match goal with |- kbase {| dy := dy ?S1; done := _; stop := _; cur := _; pmq := _; finq := _; running := _; verdict := _ |} /\ _ =>
+    change {| dy := dy S1; done := done S1 ++ [c]; stop := stop S1; cur := cur S1; pmq := pmq S1; finq := finq S1;
+              running := running S1; verdict := verdict S1 |} with (add_done S1 c) end.
   destruct (is_failed (pstate s0 c)) eqn:Fl.
   - (* a failed component is observed: from now on the state is not calm *)
-    assert (NCt : ~ calm t).
-    { intros C. apply (C c); [cbn; apply in_or_app; right; left; reflexivity|].
-      unfold pstate, cstate in Fl. change (dy s0 c) with (dy s c) in Fl. change (dy t c) with (dy s c).
+    assert (Fd : ctl (dy s c) = Some Failed).
+    { unfold pstate, cstate in Fl. change (dy s0 c) with (dy s c) in Fl.
       destruct (ctl (dy s c)) as [[| |]|]; try discriminate; [reflexivity|destruct (e (dy s c)); discriminate]. }
+    assert (NCt : ~ calm t).
+    { intros C. apply (C c); [cbn; apply in_or_app; right; left; reflexivity|exact Fd]. }
     assert (Kt : kbase t).
-    { destruct K. constructor; auto. intros C. destruct (NCt C). }
+    { destruct K. constructor; auto. intros C. exact (not_qcalm t _ NCt C). }
     match goal with |- context [if ?b then kill_all W s0 else _] => destruct b end.
     + rewrite <- kill_all_add_done. fold t. unfold kill_all.
       set (t0 := {| dy := dy t; done := done t; stop := true; cur := cur t; pmq := pmq t; finq := finq t;
@@ -454,15 +453,16 @@ Proof.
       assert (It0 : Inv t0) by exact It.
       destruct (kbase_same t t0 eq_refl eq_refl Kt) as [Kt0 Ct0].
       assert (NC0 : ~ calm t0) by (intros X; apply NCt, Ct0, X).
-      split; [exact (kill_fold_K (nodes W) t0 It0 Kt0 NC0)|].
-      intros _ x Hx. apply (kill_fold_staged (nodes W) t0 It0). unfold nodes. apply in_seq. lia.
+      split; [exact (kill_fold_K (nodes W) t0 It0 Kt0 NC0)|]. split.
+      * intros C. exfalso. destruct (kill_fold_ok (nodes W) t0 It0) as [_ [X [Dn _]]]. cbn zeta in X, Dn.
+        apply NCt. intros x Hx. specialize (C x). rewrite Dn in C. specialize (C Hx). intros E.
+        apply C. exact (x_ctl _ _ X x _ E).
+      * intros _ NF. contradiction.
     + rewrite <- stop_components_add_done, <- fake_fold_add_done. fold t.
-      rewrite Single.
-      destruct (fake_fold_ok (stage_nodes W 0) t It) as [A [_ [_ [_ Sg]]]].
-      destruct (fake_fold_K (stage_nodes W 0) t It Kt NCt) as [K1 NC1].
-      destruct (stop_components_ok (stage_nodes W 0) _ A Sg) as [_ [X2 _]].
-      destruct (stop_components_K (stage_nodes W 0) _ A K1 NC1 Sg) as [K2 NC2].
-      split; [exact K2|]. intros _ x Hx. apply (x_staged _ _ X2). apply Sg. exact (stage_nodes_all x Hx).
+      destruct (fake_fold_ok (stage_nodes W (stage (cmp W c))) t It) as [A [_ [_ [_ Sg]]]].
+      destruct (fake_fold_K (stage_nodes W (stage (cmp W c))) t It Kt NCt) as [K1 NC1].
+      destruct (stop_components_K (stage_nodes W (stage (cmp W c))) _ A K1 NC1 Sg) as [K2 NC2].
+      split; [exact K2|split; [intros C; destruct (NC2 C)|intros _ NF; contradiction]].
   - (* not failed: calm is preserved *)
     assert (Ctl : ctl (dy s c) <> Some Failed).
     { intros E. unfold pstate, cstate in Fl. change (dy s0 c) with (dy s c) in Fl. rewrite E in Fl. discriminate. }
@@ -470,50 +470,188 @@ Proof.
     { unfold calm. cbn. split; intros X x Hx.
       - apply X. apply in_or_app. left. exact Hx.
       - apply in_app_or in Hx as [Hx|[<-|[]]]; [exact (X x Hx)|exact Ctl]. }
-    split.
-    + destruct K. constructor; auto. intros X. apply Cm in X. auto.
-    + intros NC x Hx. cbn. apply St; [intros X; apply NC, Cm, X|exact Hx].
+    split; [|split; [apply Cm|intros C _; apply Cm, C]].
+    destruct K. constructor; auto. intros X. apply (qcalm_iff s _ Cm) in X. auto.
 Qed.
 
-Lemma tick_K s s' : Inv s -> kinv s -> tick W true s = Some s' -> kinv s'.
+Lemma tick_K s s' : Inv s -> kbase s -> tick W true s = Some s' -> kbase s' /\ (calm s' <-> calm s).
 Proof.
   intros I K H. unfold tick in H. destruct (cur s) as [i|]; [|discriminate]. destruct (running s); [|discriminate].
   inversion H; subst s'. destruct (stage_done W s i) eqn:Sd; [|exact (sched_pass_K s I K)].
   unfold end_stage. rewrite stop_components_noop.
-  - destruct K as [K St]. destruct (kbase_same s {| dy := dy s; done := done s; stop := stop s; cur := cur s; pmq := pmq s;
-        finq := finq s; running := false; verdict := Some (compute_verdict W s i) |} eq_refl eq_refl K) as [K' C'].
-    split; [exact K'|]. intros NC x Hx. cbn. apply St; [intros X; apply NC, C', X|exact Hx].
+  - exact (kbase_same s {| dy := dy s; done := done s; stop := stop s; cur := cur s; pmq := pmq s;
+        finq := finq s; running := false; verdict := Some (compute_verdict W s i) |} eq_refl eq_refl K).
   - intros c Hc. unfold stage_done in Sd. rewrite forallb_forall in Sd. specialize (Sd c Hc). apply memn_In in Sd.
     destruct I as [_ [I2 _]]. exact (I2 c Sd).
 Qed.
 
-Lemma start_K s s' : Inv s -> kinv s -> start_stage W true s = Some s' -> kinv s'.
+Lemma start_K s s' : Inv s -> kbase s -> start_stage W true s = Some s' -> kbase s' /\ (calm s' <-> calm s).
 Proof.
-  intros I [K St] H. unfold start_stage in H. destruct (running s); [discriminate|].
+  intros I K H. unfold start_stage in H. destruct (running s); [discriminate|].
   match type of H with (if ?b then _ else _) = _ => destruct b; [|discriminate] end.
   match type of H with Some (sched_pass W true ?S0) = _ => set (s0 := S0) in * end.
   assert (I0 : Inv s0) by (apply (Inv_sub s); auto).
   destruct (kbase_same s s0 eq_refl eq_refl K) as [K0 C0].
-  assert (K0' : kinv s0) by (split; [exact K0|intros NC x Hx; apply St; [intros X; apply NC, C0, X|exact Hx]]).
-  inversion H; subst s'. exact (sched_pass_K s0 I0 K0').
+  inversion H; subst s'. destruct (sched_pass_K s0 I0 K0) as [K1 C1]. split; [exact K1|tauto].
 Qed.
 
-Lemma step_K s ev s' : Inv s -> kinv s -> step W true outcome s ev = Some s' -> kinv s'.
+Lemma step_K s ev s' : Inv s -> kbase s -> step W true outcome s ev = Some s' ->
+  kbase s' /\ (calm s' -> calm s) /\ ((forall c, ev <> Fin c) -> calm s -> calm s').
 Proof.
   intros I K H. destruct ev as [| |c|c|c]; cbn [step] in H.
-  - exact (start_K s s' I K H).
-  - exact (tick_K s s' I K H).
-  - exact (exit_K s c s' I K H).
-  - exact (pm_K s c s' I K H).
-  - exact (fin_K s c s' I K H).
+  - destruct (start_K s s' I K H) as [A B]. split; [exact A|split; [apply B|intros _; apply B]].
+  - destruct (tick_K s s' I K H) as [A B]. split; [exact A|split; [apply B|intros _; apply B]].
+  - destruct (exit_K s c s' I K H) as [A B]. split; [exact A|split; [apply B|intros _; apply B]].
+  - destruct (pm_K s c s' I K H) as [A B]. split; [exact A|split; [apply B|intros _; apply B]].
+  - destruct (fin_K s c s' I K H) as [A [B _]]. split; [exact A|split; [exact B|]]. intros X. destruct (X c eq_refl).
 Qed.
 
-Lemma run_K : forall evs s s', Inv s -> kinv s -> run W true outcome s evs = Some s' -> kinv s'.
+Lemma run_K : forall evs s s', Inv s -> kbase s -> run W true outcome s evs = Some s' -> kbase s' /\ (calm s' -> calm s).
 Proof.
   induction evs as [|ev evs IH]; intros s s' I K H; cbn [run] in H.
-  - inversion H; subst. exact K.
+  - inversion H; subst. split; [exact K|tauto].
   - destruct (step W true outcome s ev) as [s1|] eqn:E; [|discriminate].
     destruct (step_ok W outcome s ev s1 I E) as [I1 _].
-    exact (IH s1 s' I1 (step_K s ev s1 I K E) H).
+    destruct (step_K s ev s1 I K E) as [K1 [C1 _]].
+    destruct (IH s1 s' I1 K1 H) as [K2 C2]. split; [exact K2|tauto].
 Qed.
+
+(* a state that is not calm contains a failed component that finishedCheck has handled *)
+Lemma not_calm_witness s : ~ calm s -> exists c, In c (done s) /\ ctl (dy s c) = Some Failed.
+Proof.
+  unfold calm. induction (done s) as [|x l IH]; intros NC.
+  - exfalso. apply NC. intros c [].
+  - assert (Rec : ctl (dy s x) <> Some Failed -> exists c, In c (x :: l) /\ ctl (dy s c) = Some Failed).
+    { intros NF. destruct IH as [c [Hc Hf]]; [intros C; apply NC; intros c [<-|H]; [exact NF|exact (C c H)]|].
+      exists c. split; [right; exact Hc|exact Hf]. }
+    destruct (ctl (dy s x)) as [[| |]|] eqn:E.
+    + apply Rec. discriminate.
+    + apply Rec. discriminate.
+    + exists x. split; [left; reflexivity|exact E].
+    + apply Rec. discriminate.
+Qed.
+
+(* ------------------------------------------------------------------ workflows of one stage *)
+Section Single.
+Hypothesis WF : wf W.
+Hypothesis Subjects : subjects_ok.
+Hypothesis Single : forall c, stage (cmp W c) = 0.
+
+(* once a failure has been observed every component is staged: nothing is launched any more; and every
+   component that was launched was launched against producers in their rule-given states *)
+Definition sinv (s : state) : Prop :=
+  (~ calm s -> forall c, c < ncomp W -> staged (dy s c) = true) /\
+  (forall c, 0 < runs (dy s c) -> rule spec c = false).
+
+Lemma sinv_state0 : sinv state0.
+Proof. split; [intros H; exfalso; apply H; intros x []|cbn; intros; lia]. Qed.
+
+Lemma stage_nodes_all c : c < ncomp W -> In c (stage_nodes W 0).
+Proof.
+  intros H. unfold stage_nodes. apply filter_In. split; [unfold nodes; apply in_seq; lia|]. rewrite Single. reflexivity.
+Qed.
+
+Lemma qcalm_of_calm s : calm s -> qcalm s.
+Proof. intros C. split; [exact WF|split; [exact Subjects|exact C]]. Qed.
+
+(* a failure is observed: every component gets staged *)
+Lemma fin_S s c s' : Inv s -> deliver_fin W s c = Some s' -> ctl (dy s c) = Some Failed ->
+  forall x, x < ncomp W -> staged (dy s' x) = true.
+Proof.
+  intros I H Fd. unfold deliver_fin in H. destruct (memn c (finq s)) eqn:M; [|discriminate]. cbn [negb] in H.
+  apply memn_In in M.
+  match type of H with context [is_failed (pstate ?S0 c)] => set (s0 := S0) in * end.
+  assert (Fc : is_fin (pstate s c) = true) by (destruct I as [_ [_ I3]]; exact (I3 c M)).
+  set (t := add_done s0 c).
+  assert (It : Inv t).
+  { destruct I as [I1 [I2 I3]]. split; [exact I1|split].
+    - intros x Hx. cbn in Hx. apply in_app_or in Hx as [Hx|[<-|[]]]; [exact (I2 x Hx)|exact Fc].
+    - intros x Hx. cbn in Hx. exact (I3 x (In_remove1 _ _ _ Hx)). }
+  inversion H; subst s'; clear H.
+  assert (Fl : is_failed (pstate s0 c) = true).
+  { unfold pstate, cstate. change (dy s0 c) with (dy s c). rewrite Fd. reflexivity. }
+  rewrite Fl.
+  match goal with |- forall x, _ -> staged (dy {| dy := dy ?S1; done := _; stop := _; cur := _; pmq := _; finq := _; running := _; verdict := _ |} x) = true =>
+    change (forall x, x < ncomp W -> staged (dy S1 x) = true) end.
+  match goal with |- context [if ?b then kill_all W s0 else _] => destruct b end.
+  - intros x Hx. change (dy (kill_all W s0) x) with (dy (add_done (kill_all W s0) c) x).
+    rewrite <- kill_all_add_done. fold t. unfold kill_all.
+    set (t0 := {| dy := dy t; done := done t; stop := true; cur := cur t; pmq := pmq t; finq := finq t;
+                  running := running t; verdict := verdict t |}).
+    assert (It0 : Inv t0) by exact It.
+    apply (kill_fold_staged (nodes W) t0 It0). unfold nodes. apply in_seq. lia.
+  - intros x Hx. rewrite Single.
+    match goal with |- staged (dy ?S1 x) = true => change (dy S1 x) with (dy (add_done S1 c) x) end.
+    rewrite <- stop_components_add_done, <- fake_fold_add_done. fold t.
+    destruct (fake_fold_ok (stage_nodes W 0) t It) as [A [_ [_ [_ Sg]]]].
+    destruct (stop_components_ok (stage_nodes W 0) _ A Sg) as [_ [X2 _]].
+    apply (x_staged _ _ X2). apply Sg. exact (stage_nodes_all x Hx).
+Qed.
+
+Lemma all_staged_visits s : forall l, (forall c, In c l -> staged (dy s c) = true) ->
+  fold_left (sched_visit W true) l (s, []) = (s, []).
+Proof.
+  induction l as [|c l IH]; intros H; cbn [fold_left]; [reflexivity|].
+  unfold sched_visit at 2. rewrite (H c (or_introl eq_refl)).
+  rewrite orb_true_r. cbn [orb]. apply IH. intros x Hx. apply H. right. exact Hx.
+Qed.
+
+Lemma step_S s ev s' : Inv s -> kbase s -> sinv s -> step W true outcome s ev = Some s' -> sinv s'.
+Proof.
+  intros I K [S1 S2] H.
+  destruct (step_ok W outcome s ev s' I H) as [I' [X LG]].
+  destruct (step_K s ev s' I K H) as [K' [C1 C2]].
+  assert (Part1 : ~ calm s' -> forall c, c < ncomp W -> staged (dy s' c) = true).
+  { intros NC x Hx. destruct (Classical_calm s) as [C|NC0].
+    - destruct ev as [| |c|c|c]; try (exfalso; apply NC, C2; [intros c0; discriminate|exact C]).
+      cbn [step] in H. destruct (fin_K s c s' I K H) as [_ [_ C3]].
+      destruct (ctl (dy s c)) as [[| |]|] eqn:E; try (exfalso; apply NC, C3; [exact C|congruence]).
+      exact (fin_S s c s' I H E x Hx).
+    - apply (x_staged _ _ X). exact (S1 NC0 x Hx). }
+  split; [exact Part1|].
+  intros c Hr. destruct (Nat.eq_dec (runs (dy s c)) 0) as [Z|NZ]; [|apply S2; lia].
+  destruct (Classical_calm s') as [C|NC].
+  - destruct (b_calm _ K' (qcalm_of_calm s' C)) as [_ [_ B5]]. exact (B5 c Hr).
+  - exfalso. destruct (LG c Z Hr) as [_ G].
+    (* a first launch happens only in a scheduler pass, from an unstaged component *)
+    assert (NC0 : ~ calm s).
+    { intros C. destruct ev as [| |c0|c0|c0]; try (apply NC, C2; [intros c1; discriminate|exact C]).
+      cbn [step] in H. destruct (deliver_fin_ok W s c0 s' I H) as [_ [_ LF]]. specialize (LF c Z). lia. }
+    destruct ev as [| |c0|c0|c0]; cbn [step] in H.
+    + unfold start_stage in H. destruct (running s); [discriminate|].
+      match type of H with (if ?b then _ else _) = _ => destruct b; [|discriminate] end.
+      match type of H with Some (sched_pass W true ?S0) = _ => set (s0 := S0) in * end.
+      inversion H; subst s'. unfold sched_pass in Hr.
+      rewrite (all_staged_visits s0 (nodes W)) in Hr by (intros x Hx; exact (S1 NC0 x (in_nodes W x Hx))).
+      cbn in Hr. lia.
+    + unfold tick in H. destruct (cur s) as [i|]; [|discriminate]. destruct (running s); [|discriminate].
+      inversion H; subst s'. destruct (stage_done W s i) eqn:Sd.
+      * unfold end_stage in Hr. rewrite stop_components_noop in Hr; [cbn in Hr; lia|].
+        intros x Hx. unfold stage_done in Sd. rewrite forallb_forall in Sd. specialize (Sd x Hx). apply memn_In in Sd.
+        destruct I as [_ [I2 _]]. exact (I2 x Sd).
+      * unfold sched_pass in Hr.
+        rewrite (all_staged_visits s (nodes W)) in Hr by (intros x Hx; exact (S1 NC0 x (in_nodes W x Hx))).
+        destruct (stop s); cbn in Hr; lia.
+    + destruct (exit_ok W outcome s c0 s' I H) as [_ [_ R]]. rewrite R in Hr. lia.
+    + destruct (deliver_pm_ok W s c0 s' I H) as [_ [_ LF]]. specialize (LF c Z). lia.
+    + destruct (deliver_fin_ok W s c0 s' I H) as [_ [_ LF]]. specialize (LF c Z). lia.
+Qed.
+
+Lemma run_S : forall evs s s', Inv s -> kbase s -> sinv s -> run W true outcome s evs = Some s' -> kbase s' /\ sinv s'.
+Proof.
+  induction evs as [|ev evs IH]; intros s s' I K S H; cbn [run] in H.
+  - inversion H; subst. split; assumption.
+  - destruct (step W true outcome s ev) as [s1|] eqn:E; [|discriminate].
+    destruct (step_ok W outcome s ev s1 I E) as [I1 _].
+    destruct (step_K s ev s1 I K E) as [K1 _].
+    exact (IH s1 s' I1 K1 (step_S s ev s1 I K S E) H).
+Qed.
+
+(* every final state is the rule-given one or shut-down *)
+Lemma single_final s : kbase s -> sinv s -> forall c f, ctl (dy s c) = Some f -> f = spec c \/ f = Shutdown.
+Proof.
+  intros K [_ S2] c f Hf. destruct (b_ctl _ K c f Hf) as [X|[Hr X]]; [right; exact X|left].
+  rewrite (spec_eq W outcome WF c), (S2 c Hr). exact X.
+Qed.
+End Single.
 End Failure.
